@@ -269,7 +269,11 @@ func (dec *ttlvReader) LongInteger(tag int) (int64, error) {
 }
 
 func (dec *ttlvReader) BigInteger(tag int) (*big.Int, error) {
-	v := dec.value()
+	if err := dec.assertType(TypeBigInteger, tag); err != nil {
+		return nil, err
+	}
+	// Copy bytes: the conversion below works in place and must not alter the input.
+	v := slices.Clone(dec.value())
 	return bytesToBigInt(v), dec.Next()
 }
 
